@@ -4,8 +4,9 @@ Correspondence
   url   : real `Url.from_bytes`                      vs  `hp url`
   req   : real HttpParser on the request             vs  `hp parse REQ`
           real HttpProtocolHandler + HttpProxyPlugin (in-process, patched
-          `new_socket_connection` recording the address) fed one request
-                                                     vs  `conn handle`
+          `new_socket_connection` recording the address; also with
+          `--enable-conn-pool` and a real UpstreamConnectionPool whose
+          acquire() key is recorded) fed one request  vs  `conn handle <pool>`
   route : real `new_socket_connection` with `socket.socket` /
           `socket.create_connection` recorded        vs  `conn route` (literal recognition =
                                                          the real `ipaddress` module, a parameter of the model)
@@ -61,7 +62,8 @@ RULE = ('request-targets rendered from a structured grammar (origin / absolute /
         'Url.from_bytes, the real handler + proxy plugin, and new_socket_connection; distinct by canonical JSON; '
         'non-trivial = target inside the grammar (oracle domain)')
 ASSUMPTIONS = [
-    'default flags: no plugin overrides resolve_dns, no connection pool, no TLS interception, no proxy protocol',
+    'no plugin overrides resolve_dns, no TLS interception, no proxy protocol; --enable-conn-pool is covered for a fresh pool '
+    '(first request of a connection; reuse of pooled connections across requests is not modelled)',
     'what ipaddress.ip_address accepts is a parameter of the model (evaluated with the real module)',
     'name resolution / IDNA encoding inside socket.create_connection is outside the model',
     'the request arrives in one segment (segmentation independence is C03)',
@@ -167,27 +169,69 @@ def spec_line_model(s):
 # --------------------------------------------------------------------------- running the real code
 
 _W = None
+_POOL_FLAGS = None
 
 
-def _world():
+def _world(pool=False):
+    """One World (one patch of new_socket_connection, one connect log) for both flag sets."""
     global _W
     if _W is None:
         from harness.sim import World
         _W = World(args=['--hostname', '127.0.0.1'], strict=False)
         _W.__enter__()
+        assert not _W.flags.enable_conn_pool
     return _W
+
+
+def _pool_flags():
+    global _POOL_FLAGS
+    if _POOL_FLAGS is None:
+        from proxy.common.flag import FlagParser
+        _POOL_FLAGS = FlagParser.initialize(['--hostname', '127.0.0.1', '--enable-conn-pool'], threadless=True)
+        assert _POOL_FLAGS.enable_conn_pool
+    return _POOL_FLAGS
+
+
+def _new_client(w, pool):
+    """(handler, scripted client socket, far end, acquire log).  With `pool` the handler is given a real,
+    fresh UpstreamConnectionPool (as Threadless does) whose acquire() is wrapped to record its argument."""
+    if not pool:
+        return w.new_client() + (None,)
+    import socket
+    from harness.sim import Peer, ScriptedSocket
+    from proxy.http.handler import HttpProtocolHandler
+    from proxy.core.connection import UpstreamConnectionPool
+    a, b = socket.socketpair()
+    peer = Peer(b)
+    cs = ScriptedSocket(a, 'client', peer, strict=False)
+    w.clients.append((cs, peer))
+    up = UpstreamConnectionPool()
+    acquired = []
+    real_acquire = up.acquire
+
+    def acquire(addr):
+        acquired.append((addr[0], addr[1]))
+        return real_acquire(addr)
+    up.acquire = acquire
+    h = HttpProtocolHandler(
+        HttpProtocolHandler.create(cs, ('127.0.0.1', 54321)),
+        flags=_pool_flags(), event_queue=None, uid=None, upstream_conn_pool=up,
+    )
+    h.initialize()
+    return h, cs, peer, acquired
 
 
 def _first_line(x):
     return bytes(x).split(b'\r\n', 1)[0]
 
 
-def run_handler(request):
-    """Feed `request` (one segment) to a fresh real handler.  Returns
-    (outcome, client_first_line, connect addr or None, upstream_first_line or None)."""
-    w = _world()
+def run_handler(request, pool=False, want_acquired=False):
+    """Feed `request` (one segment) to a fresh real handler (with `pool`: --enable-conn-pool and a
+    fresh real UpstreamConnectionPool).  Returns (outcome, client_first_line, connect addr or None,
+    upstream_first_line or None) [+ the list of keys given to pool.acquire]."""
+    w = _world(pool)
     del w.connects[:]
-    h, cs, cp = w.new_client()
+    h, cs, cp, acquired = _new_client(w, pool)
     try:
         cs.script_recv(('data', request))
         td = w.tick(h, R=[cs.fileno()], W=[])
@@ -221,6 +265,8 @@ def run_handler(request):
             out = 'close'
         else:
             out = 'incomplete'
+        if want_acquired:
+            return out, client, connect, upstream, list(acquired or [])
         return out, client, connect, upstream
     finally:
         try:
@@ -235,14 +281,19 @@ def run_handler(request):
         del w.upstreams[:]
 
 
-def handle_line(request):
-    out, client, connect, upstream = run_handler(request)
+def handle_line(request, pool=False):
+    out, client, connect, upstream, acquired = run_handler(request, pool, want_acquired=True)
+    acq = ''
+    if pool:
+        assert len(acquired) <= 1
+        acq = ' acquire=' + ('None' if not acquired else '%s:%d' % (hx(acquired[0][0].encode('utf-8')), acquired[0][1]))
     if out == 'incomplete':
-        return 'incomplete'
+        return 'incomplete' + acq
     if connect is None:
-        return '%s client=%s connect=None' % (out, hx(client))
+        return '%s client=%s connect=None' % (out, hx(client)) + acq
     host, port = connect
-    return '%s client=%s connect=%s:%d upstream=%s' % (out, hx(client), hx(host.encode('utf-8')), port, hx(upstream))
+    return '%s client=%s connect=%s:%d upstream=%s' % (
+        out, hx(client), hx(host.encode('utf-8')), port, hx(upstream)) + acq
 
 
 class _FakeSock:
@@ -319,7 +370,7 @@ def impl(case):
         out = [url_line(bytes.fromhex(case['raw']))]
     elif k == 'req':
         req = _request(case)
-        out = [P.feed_line('REQ', [req]), handle_line(req)]
+        out = [P.feed_line('REQ', [req]), handle_line(req, bool(case.get('pool')))]
     elif k == 'route':
         src = None if case['src'] is None else (bytes.fromhex(case['src'][0]).decode('utf-8'), case['src'][1])
         return [run_route(bytes.fromhex(case['host']).decode('utf-8'), case['port'], src)[0]]
@@ -343,7 +394,7 @@ def model_lines(case):
         out = ['hp url ' + (case['raw'] or '-')]
     elif k == 'req':
         r = _request(case).hex()
-        out = ['hp parse REQ ' + r, 'conn handle ' + r]
+        out = ['hp parse REQ ' + r, 'conn handle %d %s' % (bool(case.get('pool')), r)]
     elif k == 'route':
         v = _lit(bytes.fromhex(case['host']).decode('utf-8'))
         src = case['src']
@@ -441,7 +492,7 @@ def oracle(case):
         # RFC 3986 userinfo without a colon is valid: the target must be accepted
         if k == 'url':
             return 'valid-target-rejected' if url_line(bytes.fromhex(case['raw'])).startswith('exc') else None
-        return 'valid-target-rejected' if run_handler(_request(case))[2] is None else None
+        return 'valid-target-rejected' if run_handler(_request(case), bool(case.get('pool')))[2] is None else None
     if not in_domain(case) or not case.get('spec'):
         return None
     s = case['spec']
@@ -475,7 +526,8 @@ def oracle(case):
     # req: parser attributes + the connect actually made
     req = _request(case)
     kk, p = P.feed('REQ', [req])
-    out, client, connect, upstream = run_handler(req)
+    pool = bool(case.get('pool'))
+    out, client, connect, upstream, acquired = run_handler(req, pool, want_acquired=True)
     if s['form'] == 'origin':
         if kk != 'ok' or p.host is not None or p.path != pathq:
             return 'origin-form-fields-differ'
@@ -496,6 +548,8 @@ def oracle(case):
         return 'connect-host-differs'
     if connect[1] != want_port:
         return 'connect-port-differs'
+    if pool and (len(acquired) != 1 or acquired[0][0].lower() != _lower(bare) or acquired[0][1] != want_port):
+        return 'pool-key-differs-from-address'
     if tunnel:
         if not client.startswith(b'HTTP/1.1 200'):
             return 'tunnel-not-acknowledged'
@@ -506,7 +560,10 @@ def oracle(case):
 
 def _oracle_damaged(case):
     t = bytes.fromhex(case['raw'])
-    out, client, connect, upstream = run_handler(_request(case))
+    out, client, connect, upstream, acquired = run_handler(_request(case), bool(case.get('pool')), want_acquired=True)
+    for kh, _ in acquired:
+        if kh.encode('utf-8') not in t:
+            return 'damaged-target-pool-key-host-not-in-target'
     if connect is None:
         return None
     host, port = connect
@@ -549,12 +606,23 @@ def _spec(form, ui, hk, ht, port, pathq, scheme=b'http'):
             'pathq': pathq.hex()}
 
 
-def _mk(kind, cls, spec, method=None, raw=None):
+def _mk(kind, cls, spec, method=None, raw=None, pool=False):
     c = {'kind': kind, 'cls': cls, 'raw': (spec_render(spec) if raw is None else raw).hex(),
          'spec': spec if raw is None else None}
     if kind == 'req':
         c['method'] = method
+        c['pool'] = int(bool(pool))     # 1: handler run with --enable-conn-pool and a fresh real pool
     return c
+
+
+def _pooled(cases):
+    """every request case also with --enable-conn-pool"""
+    out = []
+    for c in cases:
+        out.append(c)
+        if c['kind'] == 'req':
+            out.append(dict(c, pool=1))
+    return out
 
 
 LABELS = [b'example', b'com', b'a', b'b-c', b'h', b'localhost', b'WWW', b'Ex-Ample', b'xn--bcher-kva', b'xn--e1afmkfd',
@@ -793,7 +861,7 @@ def corpus():
     cs.append(_route('1.2.3.4', 8080, ('10.0.0.1', 0), 'v4'))
     cs.append(_route('::1', 443, ('::', 0), 'v6'))
     cs.append(_route('example.com', 443, ('10.0.0.1', 5), 'reg'))
-    return cs
+    return _pooled(cs)
 
 
 def generate(rng, tier):
@@ -808,6 +876,8 @@ def generate(rng, tier):
             method = 'GET'
         yield _mk('url', cls, s)
         yield _mk('req', cls, s, method)
+        if form != 'origin' and (s['hk'] == 'v6' or rng.random() < 0.4):
+            yield _mk('req', cls, s, method, pool=True)
         if form != 'origin':
             yield _route(bytes.fromhex(s['ht']).decode('utf-8'), s['port'] if s['port'] is not None else 80,
                          None if rng.random() < 0.8 else ('127.0.0.1', 0), s['hk'])
@@ -827,7 +897,7 @@ def generate(rng, tier):
                     continue
                 yield _mk('url', 'damaged', None, raw=d)
                 if b' ' not in d and b'\r\n' not in d:
-                    yield _mk('req', 'damaged', None, method, raw=d)
+                    yield _mk('req', 'damaged', None, method, raw=d, pool=rng.random() < 0.3)
     # arbitrary small byte strings over the delimiter alphabet (Url level)
     alpha = b'h1:@/[].?#+_ \xff-0a'
     for _ in range(8000 if big else 700):
@@ -874,7 +944,7 @@ def describe(case):
     k = case['kind']
     if k == 'route':
         return ['route lit=%d' % _lit(bytes.fromhex(case['host']).decode('utf-8'))]
-    out = ['%s cls=%s' % (k, case.get('cls'))]
+    out = ['%s cls=%s%s' % (k, case.get('cls'), ' pool' if case.get('pool') else '')]
     s = case.get('spec')
     if s:
         out.append('form=%s host=%s port=%s ui=%d' % (
